@@ -424,6 +424,11 @@ func (s *Skiplist) deleteNode(n *Node, cmp CompareFn, buf *ActionBuffer, sts *St
 // and after this function call
 func (s *Skiplist) GetRangeSplitItems(nways int) []unsafe.Pointer {
 	var deleted bool
+	// A single range has no pivots (the loop below stops after nways-1 pivots,
+	// which it would never reach)
+	if nways <= 1 {
+		return nil
+	}
 repeat:
 	var itms []unsafe.Pointer
 	var finished bool
